@@ -1,4 +1,376 @@
 /-
-C04 — placeholder (theorems follow)
+C04 — no derivation beats the Viterbi value: in an idempotent commutative semiring (max-plus), the weight
+of every well-formed derivation with assignments (as accepted by the checker `checkDeriv`) is below the
+Kleene iterate at its root cell.
 -/
 import FggsModel.Sem
+import FggsProofs.Props.C01
+import Mathlib.Tactic.Linarith
+import Mathlib.Data.List.Basic
+import Mathlib.Data.List.Forall2
+
+set_option linter.unusedSimpArgs false
+set_option linter.unusedVariables false
+
+namespace C04
+open Fggs Fggs.Sem
+
+variable {K : Type}
+
+/-- the order of an idempotent semiring: `a ≤ b ↔ a + b = b` -/
+def le (S : SR K) (a b : K) : Prop := S.add a b = b
+
+/-! ### order toolkit -/
+section toolkit
+variable {S : SR K} (hS : C01.SRLaws S) (hid : ∀ a, S.add a a = a)
+
+include hid in
+private theorem le_refl (a : K) : le S a a := hid a
+
+include hS in
+private theorem le_trans {a b c : K} (h1 : le S a b) (h2 : le S b c) : le S a c := by
+  unfold le at *
+  rw [← h2, ← hS.add_assoc, h1]
+
+include hS hid in
+private theorem le_add_left (a b : K) : le S a (S.add a b) := by
+  unfold le
+  rw [← hS.add_assoc, hid]
+
+include hS hid in
+private theorem le_add_right (a b : K) : le S b (S.add a b) := by
+  unfold le
+  rw [hS.add_comm a b, ← hS.add_assoc, hid]
+
+include hS in
+private theorem add_zero (a : K) : S.add a S.zero = a := by rw [hS.add_comm, hS.zero_add]
+
+include hS in
+private theorem foldl_add (l : List K) (a : K) : l.foldl S.add a = S.add a (S.sum l) := by
+  induction l generalizing a with
+  | nil => simp [SR.sum, add_zero hS]
+  | cons b l ih =>
+    simp only [SR.sum, List.foldl_cons]
+    rw [ih, ih (S.add S.zero b), hS.zero_add, hS.add_assoc]
+
+include hS in
+private theorem sum_cons (a : K) (l : List K) : S.sum (a :: l) = S.add a (S.sum l) := by
+  show (a :: l).foldl S.add S.zero = _
+  rw [List.foldl_cons, foldl_add hS, hS.zero_add]
+
+include hS in
+private theorem mul_le_mul_left (a : K) {c d : K} (h : le S c d) : le S (S.mul a c) (S.mul a d) := by
+  unfold le at *
+  rw [← hS.left_distrib, h]
+
+include hS in
+private theorem mul_le_mul_right (c : K) {a b : K} (h : le S a b) : le S (S.mul a c) (S.mul b c) := by
+  rw [hS.mul_comm a c, hS.mul_comm b c]
+  exact mul_le_mul_left hS c h
+
+end toolkit
+
+/-- in an idempotent semiring every term is below the sum -/
+theorem le_sum_of_mem (S : SR K) (hS : C01.SRLaws S) (hid : ∀ a, S.add a a = a) (l : List K) (a : K) (h : a ∈ l) :
+    le S a (S.sum l) := by
+  induction l with
+  | nil => cases h
+  | cons x l ih =>
+    rw [sum_cons hS]
+    rcases List.mem_cons.1 h with rfl | h'
+    · exact le_add_left hS hid _ _
+    · exact le_trans hS (ih h') (le_add_right hS hid _ _)
+
+/-- multiplication is monotone -/
+theorem mul_le_mul (S : SR K) (hS : C01.SRLaws S) (hid : ∀ a, S.add a a = a) (a b c d : K)
+    (h1 : le S a b) (h2 : le S c d) : le S (S.mul a c) (S.mul b d) :=
+  le_trans hS (mul_le_mul_left hS a h2) (mul_le_mul_right hS d h1)
+
+/-! ### assignments -/
+
+private theorem mem_assigns {shape a : List Nat} :
+    a ∈ assigns shape ↔ List.Forall₂ (· < ·) a shape := by
+  induction shape generalizing a with
+  | nil => simp [assigns]
+  | cons n rest ih =>
+    simp only [assigns, List.mem_flatMap, List.mem_range, List.mem_map]
+    constructor
+    · rintro ⟨i, hi, is, his, rfl⟩
+      exact List.Forall₂.cons hi (ih.1 his)
+    · intro h
+      cases h with
+      | cons hi his => exact ⟨_, hi, _, ih.2 his, rfl⟩
+
+private theorem mem_assigns_idx (G : Grammar K) (nodes ρ att : List Nat)
+    (hρ : ρ ∈ assigns (G.shapeOf nodes)) (hatt : ∀ v ∈ att, v < nodes.length) :
+    att.map (fun v => ρ[v]?.getD 0) ∈ assigns (G.shapeOf (att.map (fun v => nodes[v]?.getD 0))) := by
+  rw [mem_assigns] at hρ ⊢
+  unfold Grammar.shapeOf at hρ ⊢
+  rw [List.map_map, List.forall₂_map_left_iff, List.forall₂_map_right_iff, List.forall₂_same]
+  intro v hv
+  have hv' := hatt v hv
+  rw [List.forall₂_map_right_iff] at hρ
+  have hlen := hρ.length_eq
+  have := List.Forall₂.get hρ (i := v) (by omega) hv'
+  simpa [List.getElem?_eq_getElem hv', List.getElem?_eq_getElem (show v < ρ.length by omega)] using this
+
+/-- the node values of an accepted rule instance form an assignment of the rule's nodes -/
+private theorem asst_mem_assigns (G : Grammar K) (nodes asst : List Nat)
+    (hlen : asst.length = nodes.length)
+    (hall : (asst.zip nodes).all (fun (v, l) => decide (v < G.dom l)) = true) :
+    asst ∈ assigns (G.shapeOf nodes) := by
+  rw [mem_assigns]
+  unfold Grammar.shapeOf
+  rw [List.forall₂_map_right_iff, List.forall₂_iff_zip]
+  refine ⟨hlen, ?_⟩
+  intro v l hvl
+  rw [List.all_eq_true] at hall
+  simpa using hall (v, l) hvl
+
+/-! ### the checker, one level unfolded -/
+
+private theorem edgeWeight_term (S : SR K) (G : Grammar K) (x : Val K) (l : Nat) (idx : List Nat)
+    (h : l < G.T) : edgeWeight S G x l idx = edgeWeight S G [] l idx := by
+  simp [edgeWeight, h]
+
+private theorem edgeWeight_nt (S : SR K) (G : Grammar K) (x : Val K) (l : Nat) (idx : List Nat)
+    (h : ¬ l < G.T) : edgeWeight S G x l idx = C01.valCell S G x (l - G.T) idx := by
+  simp only [edgeWeight, C01.valCell, Grammar.labelType, h, if_false]
+  rfl
+
+private def stepC (S : SR K) (G : Grammar K) (fuel : Nat) (asst : List Nat) :
+    Option (K × List ADeriv) → Nat × List Nat → Option (K × List ADeriv) :=
+  fun acc e =>
+    match acc with
+    | none => none
+    | some (w, rest) =>
+      let idx := e.2.map (fun v => asst[v]?.getD 0)
+      if e.1 < G.T then some (S.mul w (edgeWeight S G [] e.1 idx), rest)
+      else match rest with
+        | c :: rest' => (checkDeriv S G fuel c (e.1 - G.T) idx).map (fun wc => (S.mul w wc, rest'))
+        | [] => none
+
+private theorem checkDeriv_succ (S : SR K) (G : Grammar K) (fuel ri : Nat) (asst : List Nat)
+    (cs : List ADeriv) (X : Nat) (a : List Nat) :
+    checkDeriv S G (fuel+1) (.mk ri asst cs) X a =
+      match G.rules[ri]? with
+      | none => none
+      | some r =>
+        if r.lhs != X then none
+        else if asst.length != r.nodes.length then none
+        else if !((asst.zip r.nodes).all (fun (v, l) => decide (v < G.dom l))) then none
+        else if r.ext.map (fun v => asst[v]?.getD 0) != a then none
+        else
+          match r.edges.foldl (stepC S G fuel asst) (some (S.one, cs)) with
+          | some (w, []) => some w
+          | _ => none := by
+  rw [checkDeriv]; rfl
+
+private theorem foldl_stepC_none (S : SR K) (G : Grammar K) (fuel : Nat) (asst : List Nat)
+    (es : List (Nat × List Nat)) : es.foldl (stepC S G fuel asst) none = none := by
+  induction es with
+  | nil => rfl
+  | cons e es ih => rw [List.foldl_cons]; exact ih
+
+/-- the fold over the edges: accumulated weight ≤ accumulated product of edge weights -/
+private theorem fold_bound (S : SR K) (hS : C01.SRLaws S) (hid : ∀ a, S.add a a = a) (G : Grammar K)
+    (x : Val K) (fuel : Nat) (asst : List Nat) (es : List (Nat × List Nat))
+    (hch : ∀ e ∈ es, ¬ e.1 < G.T → ∀ c wc,
+      checkDeriv S G fuel c (e.1 - G.T) (e.2.map (fun v => asst[v]?.getD 0)) = some wc →
+      le S wc (edgeWeight S G x e.1 (e.2.map (fun v => asst[v]?.getD 0))))
+    (w0 : K) (cs0 : List ADeriv) (c0 : K) (h0 : le S w0 c0) (w : K) (rest : List ADeriv)
+    (h : es.foldl (stepC S G fuel asst) (some (w0, cs0)) = some (w, rest)) :
+    le S w ((es.map (fun e => edgeWeight S G x e.1 (e.2.map (fun v => asst[v]?.getD 0)))).foldl S.mul c0) := by
+  induction es generalizing w0 cs0 c0 with
+  | nil =>
+    simp only [List.foldl_nil, Option.some.injEq, Prod.mk.injEq] at h
+    obtain ⟨rfl, _⟩ := h
+    simpa using h0
+  | cons e es ih =>
+    have ih' := ih (fun e he => hch e (List.mem_cons_of_mem _ he))
+    rw [List.foldl_cons] at h
+    rw [List.map_cons, List.foldl_cons]
+    by_cases hT : e.1 < G.T
+    · have hs : stepC S G fuel asst (some (w0, cs0)) e =
+          some (S.mul w0 (edgeWeight S G [] e.1 (e.2.map (fun v => asst[v]?.getD 0))), cs0) := by
+        simp only [stepC, hT, if_true]
+      rw [hs] at h
+      refine ih' _ _ _ ?_ h
+      rw [edgeWeight_term S G x _ _ hT]
+      exact mul_le_mul_right hS _ h0
+    · cases cs0 with
+      | nil =>
+        have hs : stepC S G fuel asst (some (w0, [])) e = none := by
+          simp only [stepC, hT, if_false]
+        rw [hs, foldl_stepC_none] at h
+        cases h
+      | cons c cs1 =>
+        have hs : stepC S G fuel asst (some (w0, c :: cs1)) e =
+            (checkDeriv S G fuel c (e.1 - G.T) (e.2.map (fun v => asst[v]?.getD 0))).map
+              (fun wc => (S.mul w0 wc, cs1)) := by
+          simp only [stepC, hT, if_false]
+        rw [hs] at h
+        cases hc : checkDeriv S G fuel c (e.1 - G.T) (e.2.map (fun v => asst[v]?.getD 0)) with
+        | none =>
+          rw [hc, Option.map_none, foldl_stepC_none] at h
+          cases h
+        | some wc =>
+          rw [hc, Option.map_some] at h
+          refine ih' _ _ _ ?_ h
+          exact mul_le_mul S hS hid _ _ _ _ h0 (hch e (List.mem_cons_self ..) hT c wc hc)
+
+/-- **a well-formed derivation never weighs more than the Kleene iterate at its root cell** (idempotent
+commutative semiring, e.g. Viterbi): `checkDeriv … = some w → w ≤ F^fuel(0)[X][a]`.
+
+With respect to the first draft of this statement the hypothesis
+`ha : a ∈ assigns (G.shapeOf (G.nts[X]?.getD []))` (the requested external values are an index tuple of
+the tensor of `X`) has been ADDED.  It holds for every call with a valid start assignment, and it is
+derivable from the checker's own tests as soon as the external nodes of every rule are node positions of
+the rule (`checkDeriv_le_kleene_of_ext` below); the recursive calls satisfy it because of the conjunct
+`∀ v ∈ e.2, v < r.nodes.length` of `hty`.
+
+Without it the statement is FALSE (`checkDeriv_le_kleene_original_false` below, machine checked): `hty`
+does not bound the entries of `r.ext`; an out-of-range external node reads node label `0` and value `0`,
+and if `G.dom 0 = 0` the tensor of `X` is empty (every cell reads as zero) while the checker accepts.
+Falsifying input: `fuel = 1`, `d = .mk 0 [] []`, `X = 0`, `a = [0]`,
+`G = ⟨nls := [], terms := [], nts := [[0]], start := 0, rules := [⟨0, [], [5], []⟩], weights := []⟩`;
+it satisfies `hty`, `checkDeriv … = some 1` (`some true` in `boolSR`, `some 0` in `vitSR`), but
+`kleene 1 = [some []]`, so the cell is `zero` (`false`, resp. `-inf`) and `one ≤ zero` fails.
+
+Original statement:
+```
+theorem checkDeriv_le_kleene (S : SR K) (hS : C01.SRLaws S) (hid : ∀ a, S.add a a = a) (G : Grammar K)
+    (hty : ∀ r ∈ G.rules, r.lhs < G.nts.length ∧
+        G.shapeOf (r.ext.map (fun v => r.nodes[v]?.getD 0)) = G.shapeOf (G.nts[r.lhs]?.getD []) ∧
+        ∀ e ∈ r.edges, e.1 < G.T + G.nts.length ∧
+          (e.2.map (fun v => r.nodes[v]?.getD 0)) = G.labelType e.1 ∧ ∀ v ∈ e.2, v < r.nodes.length)
+    (fuel : Nat) (d : ADeriv) (X : Nat) (hX : X < G.nts.length) (a : List Nat) (w : K)
+    (h : checkDeriv S G fuel d X a = some w) :
+    le S w (C01.valCell S G (kleene S G fuel) X a)
+```
+-/
+theorem checkDeriv_le_kleene (S : SR K) (hS : C01.SRLaws S) (hid : ∀ a, S.add a a = a) (G : Grammar K)
+    (hty : ∀ r ∈ G.rules, r.lhs < G.nts.length ∧
+        G.shapeOf (r.ext.map (fun v => r.nodes[v]?.getD 0)) = G.shapeOf (G.nts[r.lhs]?.getD []) ∧
+        ∀ e ∈ r.edges, e.1 < G.T + G.nts.length ∧
+          (e.2.map (fun v => r.nodes[v]?.getD 0)) = G.labelType e.1 ∧ ∀ v ∈ e.2, v < r.nodes.length)
+    (fuel : Nat) (d : ADeriv) (X : Nat) (hX : X < G.nts.length) (a : List Nat)
+    (ha : a ∈ assigns (G.shapeOf (G.nts[X]?.getD []))) (w : K)
+    (h : checkDeriv S G fuel d X a = some w) :
+    le S w (C01.valCell S G (kleene S G fuel) X a) := by
+  induction fuel generalizing d X a w with
+  | zero => simp [checkDeriv] at h
+  | succ fuel ih =>
+    obtain ⟨ri, asst, cs⟩ := d
+    rw [checkDeriv_succ] at h
+    cases hri : G.rules[ri]? with
+    | none => simp [hri] at h
+    | some r =>
+      simp only [hri] at h
+      split_ifs at h with h1 h2 h3 h4
+      have hr : r ∈ G.rules := List.mem_of_getElem? hri
+      have hlhs : r.lhs = X := by simpa using h1
+      have hlen : asst.length = r.nodes.length := by simpa using h2
+      have hall : (asst.zip r.nodes).all (fun (v, l) => decide (v < G.dom l)) = true := by simpa using h3
+      have hext : r.ext.map (fun v => asst[v]?.getD 0) = a := by simpa using h4
+      obtain ⟨_, hshape, hedges⟩ := hty r hr
+      have hasst := asst_mem_assigns G r.nodes asst hlen hall
+      rw [kleene, C01.F_cell S hS G _ X hX a ha]
+      · have hrX : r ∈ G.rulesOf X := by
+          unfold Grammar.rulesOf
+          exact List.mem_filter.2 ⟨hr, by simpa using hlhs⟩
+        refine le_trans hS ?_ (le_sum_of_mem S hS hid _ _ (List.mem_map.2 ⟨r, hrX, rfl⟩))
+        unfold ruleCell
+        refine le_trans hS ?_ (le_sum_of_mem S hS hid _ _ (List.mem_map.2 ⟨asst,
+          List.mem_filter.2 ⟨hasst, by simpa using hext⟩, rfl⟩))
+        cases hf : r.edges.foldl (stepC S G fuel asst) (some (S.one, cs)) with
+        | none => simp [hf] at h
+        | some p =>
+          obtain ⟨w', rest⟩ := p
+          rw [hf] at h
+          cases rest with
+          | cons _ _ => simp at h
+          | nil =>
+            simp only [Option.some.injEq] at h
+            subst h
+            refine fold_bound S hS hid G (kleene S G fuel) fuel asst r.edges ?_ S.one cs S.one
+              (le_refl hid _) _ _ hf
+            intro e he hT c wc hc
+            obtain ⟨e1, e2, e3⟩ := hedges e he
+            rw [edgeWeight_nt S G _ _ _ hT]
+            refine ih c (e.1 - G.T) (by omega) _ ?_ wc hc
+            have := mem_assigns_idx G r.nodes asst e.2 hasst e3
+            rw [e2] at this
+            simpa [Grammar.labelType, hT] using this
+      · intro r' hr'
+        have := List.mem_filter.1 hr'
+        obtain ⟨_, h2', _⟩ := hty r' this.1
+        have hl : r'.lhs = X := by simpa using this.2
+        rw [h2', hl]
+
+/-- what the checker's tests give at the root: if the external nodes of the root rule are node positions,
+the accepted external values are an index tuple of the tensor of `X` -/
+private theorem root_mem_assigns (S : SR K) (G : Grammar K)
+    (hty : ∀ r ∈ G.rules,
+        G.shapeOf (r.ext.map (fun v => r.nodes[v]?.getD 0)) = G.shapeOf (G.nts[r.lhs]?.getD []) ∧
+        ∀ v ∈ r.ext, v < r.nodes.length)
+    (fuel : Nat) (d : ADeriv) (X : Nat) (a : List Nat) (w : K)
+    (h : checkDeriv S G fuel d X a = some w) :
+    a ∈ assigns (G.shapeOf (G.nts[X]?.getD [])) := by
+  cases fuel with
+  | zero => simp [checkDeriv] at h
+  | succ fuel =>
+    obtain ⟨ri, asst, cs⟩ := d
+    rw [checkDeriv_succ] at h
+    cases hri : G.rules[ri]? with
+    | none => simp [hri] at h
+    | some r =>
+      simp only [hri] at h
+      split_ifs at h with h1 h2 h3 h4
+      have hr : r ∈ G.rules := List.mem_of_getElem? hri
+      have hlhs : r.lhs = X := by simpa using h1
+      have hlen : asst.length = r.nodes.length := by simpa using h2
+      have hall : (asst.zip r.nodes).all (fun (v, l) => decide (v < G.dom l)) = true := by simpa using h3
+      have hext : r.ext.map (fun v => asst[v]?.getD 0) = a := by simpa using h4
+      obtain ⟨hshape, hbound⟩ := hty r hr
+      have := mem_assigns_idx G r.nodes asst r.ext (asst_mem_assigns G r.nodes asst hlen hall) hbound
+      rwa [hshape, hlhs, hext] at this
+
+/-- the same bound without the hypothesis on `a`, for grammars whose external nodes are node positions of
+their rule (`hty` strengthened by the conjunct `∀ v ∈ r.ext, v < r.nodes.length`): then the checker's own
+tests imply that `a` is an index tuple of the tensor of `X` -/
+theorem checkDeriv_le_kleene_of_ext (S : SR K) (hS : C01.SRLaws S) (hid : ∀ a, S.add a a = a) (G : Grammar K)
+    (hty : ∀ r ∈ G.rules, r.lhs < G.nts.length ∧
+        G.shapeOf (r.ext.map (fun v => r.nodes[v]?.getD 0)) = G.shapeOf (G.nts[r.lhs]?.getD []) ∧
+        (∀ v ∈ r.ext, v < r.nodes.length) ∧
+        ∀ e ∈ r.edges, e.1 < G.T + G.nts.length ∧
+          (e.2.map (fun v => r.nodes[v]?.getD 0)) = G.labelType e.1 ∧ ∀ v ∈ e.2, v < r.nodes.length)
+    (fuel : Nat) (d : ADeriv) (X : Nat) (hX : X < G.nts.length) (a : List Nat) (w : K)
+    (h : checkDeriv S G fuel d X a = some w) :
+    le S w (C01.valCell S G (kleene S G fuel) X a) :=
+  checkDeriv_le_kleene S hS hid G (fun r hr => ⟨(hty r hr).1, (hty r hr).2.1, (hty r hr).2.2.2⟩)
+    fuel d X hX a
+    (root_mem_assigns S G (fun r hr => ⟨(hty r hr).2.1, (hty r hr).2.2.1⟩) fuel d X a w h) w h
+
+/-- the grammar of the counterexample to the first draft of `checkDeriv_le_kleene` -/
+private def cexG : Grammar Bool :=
+  ⟨[], [], [[0]], 0, [⟨0, [], [5], []⟩], []⟩
+
+/-- the first draft of `checkDeriv_le_kleene` (without `ha`) is false, already in the Boolean semiring -/
+theorem checkDeriv_le_kleene_original_false :
+    ¬ (∀ (S : SR Bool) (hS : C01.SRLaws S) (hid : ∀ a, S.add a a = a) (G : Grammar Bool)
+      (hty : ∀ r ∈ G.rules, r.lhs < G.nts.length ∧
+        G.shapeOf (r.ext.map (fun v => r.nodes[v]?.getD 0)) = G.shapeOf (G.nts[r.lhs]?.getD []) ∧
+        ∀ e ∈ r.edges, e.1 < G.T + G.nts.length ∧
+          (e.2.map (fun v => r.nodes[v]?.getD 0)) = G.labelType e.1 ∧ ∀ v ∈ e.2, v < r.nodes.length)
+      (fuel : Nat) (d : ADeriv) (X : Nat) (hX : X < G.nts.length) (a : List Nat) (w : Bool)
+      (h : checkDeriv S G fuel d X a = some w),
+      le S w (C01.valCell S G (kleene S G fuel) X a)) := by
+  intro H
+  have := H boolSR C01.boolSR_laws (by decide) cexG (by decide) 1 (.mk 0 [] []) 0 (by decide) [0] true
+    (by decide)
+  unfold le at this
+  revert this
+  decide
+
+end C04
